@@ -235,10 +235,16 @@ def _make_probe(rng, tmpl, pa, l1, l2, addr):
         p["abs_words"] = [1]
     elif k in ("idx", "idxdef", "idxdefneg"):
         rn = rng.randrange(6)
+        # the displacement: the label alone, or an unbracketed expression of two or three levels around it
+        a, b, c = rng.randrange(1, 6), rng.randrange(1, 5), rng.randrange(0, 9)
+        disp, dval = rng.choice([
+            (l1, t1), (l1, t1), ("%s+%o*%o" % (l1, a, b), t1 + a * b), ("%s-%o*%o" % (l1, a, b), t1 - a * b), ("%o*%o+%s" % (a, b, l1), a * b + t1),
+            ("%s+%o+%o" % (l1, a, c), t1 + a + c), ("%s+%o*%o-%o" % (l1, a, b, c), t1 + a * b - c), ("%s+<%o*%o>" % (l1, a, b), t1 + a * b),
+            ("%s+%o/%o" % (l1, a * b, b), t1 + a)])
         if k == "idx":
-            p["src"], mode, val = "mov %s(r%d), r%d" % (l1, rn, r), 6, t1
+            p["src"], mode, val = "mov %s(r%d), r%d" % (disp, rn, r), 6, dval
         elif k == "idxdef":
-            p["src"], mode, val = "mov @%s(r%d), r%d" % (l1, rn, r), 7, t1
+            p["src"], mode, val = "mov @%s(r%d), r%d" % (disp, rn, r), 7, dval
         else:
             p["src"], mode, val = "clr @-%s(r%d)" % (l1, rn), 7, -t1
         size = 4
